@@ -612,3 +612,10 @@ PROPS["C09"]["level_text"] += " m_mod_ps_unsubscribe(): exactly one removal unde
 PROPS["C09"]["not_decided"] = ["that the BST behind the abstract keyed set is a set for > K nodes (C11 is bounded)", "one-shot removal in recv_events for batches of more than 2 events (bounded stand-in)"]
 # (evts.unstash with a loop contract: retried with the lessons of round 2 -- explicit ghost frames, pointer_equals, count-only release -- symbolic execution now finishes but the SAT
 # reduction runs out of 12 GB after 7 min; not registered, the bounded real-code unit evts.unstash_real stands)
+U("ctx.ctx_new", src="units/ctx_unit.c", harness="h_ctx_new", enforce="ctx_new", defines=["V_CTXAPI_UNIT", "V_CTXNEW_UNIT"], logctx="CORE",
+  replace=["m_mem_new", "poll_create", "m_map_new", "mem_strdup", "fs_create", "v_pthread_setspecific", "m_mem_unref"], props=["C07", "C04"], contract_files=CTXAPI, native=False, timeout=300, min_obligations=20)
+
+PROPS["C07"]["level_text"] += (" ctx_new(): the fresh context becomes the thread's context only when every construction stage succeeded (IDLE, empty, name / flags / user data as given, one registration "
+                               "reference); a failing stage releases it exactly once and leaves the thread without context.")
+PROPS["C07"]["not_decided"] = ["ctx_dtor() internals (poll_destroy, map free)", "that m_map_iterate(ctx_destroy_mods) reaches every module (C05 bounded)",
+                               "allocation failure of the module table inside ctx_new (returns 0 without a context: seen, not under an obligation -- allocation failure is not modelled in the core units)"]
